@@ -5,6 +5,8 @@
    on the whole small-scope case space, and exports every case with the expected In-calls per round.
 2. The real worker.work is run on a real file for the exported cases (all in thorough, a seeded
    sample in quick) and its In-calls are compared with the specification's expectation.
+4. End to end: a sample of the cases is read by the real file plugin inside a real pipeline (limit and cut-off in the
+   pipeline settings, raw decoder); (message, offset) at the output must be the specification's lines.
 3. Several files on ONE worker goroutine (specs/WorkerTails.tla: the held-back tail of a file is the file's own copy,
    mutant M_TailCopied rejected): seeded groups of two or three cases with the same worker configuration are served
    by one worker.work call per round; each file must see exactly the calls expected for it alone.
@@ -62,9 +64,32 @@ def run(ctx):
     for c in cases[:3]:
         ctx.sample(c)
     ctx.assumptions += ["regular (non-lz4) files; appends happen only while the job is at EOF (between read rounds)",
-                        "pipeline-level cut to exactly max_event_size bytes is decided under C20"]
+                        "end to end (file input + Pipeline.In with the same limit, raw decoder): cases without resume/skip, the whole content written before the start"]
     recs = []
     for m in r["mismatches"] or []:
         recs.append({"kind": m["kind"], "case": m["case"], "round": m["round"], "want": m.get("want"),
                      "got": m.get("got"), "panic": m.get("panic", ""), "extra": m.get("extra")})
+    # 3. end to end: the real file input inside a real pipeline (size limit applied by Pipeline.In as well)
+    pool = [c for c in (res.printed if not ctx.replay else cases) if c.get("resume", 0) == 0 and not c.get("skip")]
+    if not ctx.replay:
+        ctx.rng.shuffle(pool)
+        lim = [c for c in pool if c["M"] > 0]
+        pool = lim[:2400 if ctx.tier == "thorough" else 300] + [c for c in pool if c["M"] == 0][:600 if ctx.tier == "thorough" else 60]
+    if pool:
+        p2 = os.path.join(ctx.scratch, "c06_e2e_cases.ndjson")
+        with open(p2, "w") as f:
+            for c in pool:
+                f.write(json.dumps(c) + "\n")
+        out2 = os.path.join(ctx.scratch, "c06_e2e_out.json")
+        rc, txt = ctx.run_bin(binary, "^TestVerifC06E2E$", env={"VERIF_CASES": p2, "VERIF_OUT": out2}, timeout=3000)
+        if rc != 0 or not os.path.exists(out2):
+            raise vlib.Infra("C06 end-to-end harness failed rc=%s:\n%s" % (rc, txt[-3000:]))
+        r2 = json.load(open(out2))
+        if r2["executed"] != len(pool):
+            raise vlib.Infra("end-to-end harness executed %d of %d cases" % (r2["executed"], len(pool)))
+        ctx.evaluations += r2["executed"]
+        ctx.extra["end_to_end_cases"] = r2["executed"]
+        ctx.extra["end_to_end_cases_with_a_line_exactly_at_the_limit"] = r2["at_limit"]
+        for m in r2["mismatches"] or []:
+            recs.append({"kind": m["kind"], "case": m["case"], "round": -1, "want": m.get("want"), "got": m.get("got"), "panic": "", "extra": None})
     ctx.classify(recs)
